@@ -69,7 +69,7 @@ func c14Vals(d ref.DT, n int, vs string) []interface{} {
 	e := edgeVals(d)
 	for i := range v {
 		if vs == "edge" {
-			v[i] = e[i%len(e)]
+			v[i] = e[(i+len(e)-1)%len(e)] // rotated: the last edge value (the hardest one for text formats) comes first
 		} else {
 			v[i] = d.Code(i + 1)
 		}
@@ -244,9 +244,7 @@ func c14Case(r *core.Run, f ioFmt, d ref.DT, shape []int, lay, vs string, mbits 
 				continue
 			}
 			if !ref.Same(got[i], vals[i]) {
-				if f.name == "csv" && ref.Close(got[i], vals[i]) {
-					continue
-				}
+				// (WriteCSV prints with %v, the shortest decimal that round-trips: the text format is exact too)
 				return fail("wrong-value", fmt.Sprintf("el%d", i), "%s: element %d is %s, expected %s; got %s expected %s", what, i, ref.Fmt(got[i]), ref.Fmt(vals[i]), ref.FmtEls(got), ref.FmtEls(vals))
 			}
 		}
@@ -284,7 +282,7 @@ func c14Case(r *core.Run, f ioFmt, d ref.DT, shape []int, lay, vs string, mbits 
 			r.Op(1)
 			if o.Class == "ok" {
 				for i := range flat {
-					if !(mask != nil && mask[i] && !f.mask) && !ref.Same(flat[i], vals[i]) && !(f.name == "csv" && ref.Close(flat[i], vals[i])) {
+					if !(mask != nil && mask[i] && !f.mask) && !ref.Same(flat[i], vals[i]) {
 						return fail("wrong-value", fmt.Sprintf("flat%d", i), "%s: flattening a clone of the decoded tensor reads %s, expected %s", what, ref.FmtEls(flat), ref.FmtEls(vals))
 					}
 				}
@@ -296,7 +294,7 @@ func c14Case(r *core.Run, f ioFmt, d ref.DT, shape []int, lay, vs string, mbits 
 				cp, err := atlas.Logical(dst)
 				if err == nil {
 					for i := range cp {
-						if !(mask != nil && mask[i] && !f.mask) && !ref.Same(cp[i], vals[i]) && !(f.name == "csv" && ref.Close(cp[i], vals[i])) {
+						if !(mask != nil && mask[i] && !f.mask) && !ref.Same(cp[i], vals[i]) {
 							return fail("wrong-value", fmt.Sprintf("copy%d", i), "%s: Copy of the decoded tensor into a fresh tensor reads %s, expected %s", what, ref.FmtEls(cp), ref.FmtEls(vals))
 						}
 					}
